@@ -160,7 +160,7 @@ CLAIMED["C15"]["note"] += " CacheManager is verified for fixed namespace shapes 
 CLAIMED["C19"]["text"] += (" Per-function contracts: _truncate_tokens (<= max(limit,0) tokens), _reflect_rulebased/_reflect_llm (<= 1 entry, 0 when "
     "ops cap <= 0, summary within the token limit), write_reflection_entries (written <= min(entries, cap), never raises), _episode_id / "
     "_now_iso_from_ctx (functions of agent, turn, slot, text / now_iso, now_ms only).")
-CLAIMED["C19"]["note"] = ("str.split/join: two documented axioms; sha256 and _normalize are uninterpreted deterministic functions; the LLM fixture "
+CLAIMED["C19"]["note"] = ("whitespace split/join: four stated axioms (pyvc/verifier.split_join_axioms); sha256 and _normalize are uninterpreted deterministic functions; the LLM fixture "
     "adapter and the embedding are trusted; fixture files are not modelled.")
 CLAIMED.update({
     "C06": {
